@@ -10,6 +10,7 @@ import Isotp.Params
   (`run2` / `exec2B` of Isotp/Py/Exec2.lean, fuel `n`); every statement without a `tryCatch` is proved in the first semantics
   (`execStmt`) and carried over with the bridge theorems of Exec2Bridge.lean.
 -/
+set_option linter.unusedSimpArgs false
 namespace Isotp.PyAgree.Params
 open Isotp Isotp.Py
 
@@ -216,4 +217,1012 @@ theorem nb_tat (a : List PV) : evalBuiltin "isotp.TargetAddressType" a = none :=
 theorem nb_caught (a : List PV) : evalBuiltin "__caught__" a = none := by unfold evalBuiltin; split <;> simp_all
 theorem nb_wait (a : List PV) : evalBuiltin "self.wait_func" a = none := by unfold evalBuiltin; split <;> simp_all
 
+
+/-! ## 3. Value-level lemmas -/
+
+theorem bi_int (v : PyVal) : evalBuiltin "isinstance_int" [pv v] = some (.ok (pbool v.isInt)) := rfl
+theorem bi_bool (v : PyVal) : evalBuiltin "isinstance_bool" [pv v] = some (.ok (pbool v.isBool)) := by cases v <;> rfl
+theorem bi_float (v : PyVal) : evalBuiltin "isinstance_float" [pv v] = some (.ok (pbool v.isFloat)) := by cases v <;> rfl
+theorem bi_intfloat (v : PyVal) : evalBuiltin "isinstance_int_float" [pv v] = some (.ok (pbool (isNumber v))) := rfl
+theorem bi_int_enum (c m : String) : evalBuiltin "isinstance_int" [.sc (.enum c m)] = some (.ok (pbool false)) := rfl
+
+theorem bne_pnone (v : PyVal) : ((pv v) != pnone) = !v.isNone := by cases v <;> simp [PyVal.isNone]
+
+theorem cmp_lt_int (v : PyVal) (h : v.isInt = true) (k : Int) :
+    evalCmp .lt (pv v) (pint k) = .ok (pbool (decide (v.intVal < k))) := by
+  cases v <;> simp_all [PyVal.isInt, evalCmp, isNumber, numLt, PyVal.intVal] <;> congr
+theorem cmp_gt_int (v : PyVal) (h : v.isInt = true) (k : Int) :
+    evalCmp .gt (pv v) (pint k) = .ok (pbool (decide (k < v.intVal))) := by
+  cases v <;> simp_all [PyVal.isInt, evalCmp, isNumber, numLt, PyVal.intVal] <;> congr
+theorem cmp_gt_int_int (v w : PyVal) (h : v.isInt = true) (h' : w.isInt = true) :
+    evalCmp .gt (pv v) (pv w) = .ok (pbool (decide (w.intVal < v.intVal))) := by
+  cases v <;> cases w <;> simp_all [PyVal.isInt, evalCmp, isNumber, numLt, PyVal.intVal] <;> congr
+
+theorem dec_congr {a b : Prop} [ia : Decidable a] [ib : Decidable b] (h : a ↔ b) : @decide a ia = @decide b ib := by
+  by_cases ha : a <;> simp [ha, h.symm]
+
+/-- `v < 0` on any number -/
+theorem cmp_lt_zero (v : PyVal) (h : isNumber v = true) : evalCmp .lt (pv v) (pint 0) = .ok (pbool v.ltZero) := by
+  cases v <;> simp_all [evalCmp, isNumber, numLt, PyVal.isInt, PyVal.intVal, PyVal.ltZero]
+  case bool b => cases b <;> rfl
+  all_goals exact dec_congr Iff.rfl
+theorem le_zero_aux (i : Int) : (decide (i < 0) || i == 0) = decide (i ≤ 0) := by
+  by_cases h1 : i < 0 <;> by_cases h2 : i = 0 <;> by_cases h3 : i ≤ 0 <;> simp [h1, h2, h3] <;> omega
+/-- `v <= 0` on any number -/
+theorem cmp_le_zero (v : PyVal) (h : isNumber v = true) : evalCmp .le (pv v) (pint 0) = .ok (pbool v.leZero) := by
+  cases v with
+  | bool b => cases b <;> rfl
+  | int i =>
+    simp only [evalCmp, isNumber, numLt, PyVal.isInt, PyVal.intVal, PyVal.leZero, PyVal.pyEq, bind, Except.bind]
+    by_cases h1 : i < 0 <;> by_cases h2 : i = 0 <;> by_cases h3 : i ≤ 0 <;> simp [h1, h2, h3] <;> omega
+  | float n d =>
+    simp only [evalCmp, isNumber, numLt, PyVal.isInt, PyVal.intVal, PyVal.leZero, PyVal.pyEq, bind, Except.bind]
+    by_cases h1 : n < 0 <;> by_cases h2 : n = 0 <;> by_cases h3 : n ≤ 0 <;> simp [h1, h2, h3] <;> omega
+  | nan => rfl
+  | posInf => rfl
+  | negInf => rfl
+  | none => simp [isNumber] at h
+  | str t => simp [isNumber] at h
+  | other t => simp [isNumber] at h
+/-- `v < k` on any number -/
+theorem cmp_lt_num (v : PyVal) (h : isNumber v = true) (k : Int) : evalCmp .lt (pv v) (pint k) = .ok (pbool (v.ltInt k)) := by
+  cases v <;> simp_all [evalCmp, isNumber, numLt, PyVal.isInt, PyVal.intVal, PyVal.ltInt]
+  all_goals exact dec_congr Iff.rfl
+
+
+/-! ## 4. Stepping through a chain of checks in the second semantics -/
+
+def VE : String := "ValueError"
+def raiseVE : PBlock := .cons (.raise "ValueError") .nil
+
+/-- a statement that, for every fuel `≥ k`: falls through to `env'` when `c`, raises `ValueError` otherwise -/
+def StepS (M : Meths) (k : Nat) (env : Env) (s : PStmt) (c : Bool) (env' : Env) : Prop :=
+  (c = true → ∀ n, k ≤ n → exec2S n M env s = .ok (.next env')) ∧
+  (c = false → ∀ n, k ≤ n → ∃ e, exec2S n M env s = .ok (.raised "ValueError" e))
+/-- the same for a block -/
+def StepB (M : Meths) (k : Nat) (env : Env) (b : PBlock) (c : Bool) (env' : Env) : Prop :=
+  (c = true → ∀ n, k ≤ n → exec2B n M env b = .ok (.next env')) ∧
+  (c = false → ∀ n, k ≤ n → ∃ e, exec2B n M env b = .ok (.raised "ValueError" e))
+
+theorem StepS.mono {M : Meths} {k k' : Nat} {env env' : Env} {s : PStmt} {c : Bool} (h : StepS M k env s c env') (hk : k ≤ k') :
+    StepS M k' env s c env' :=
+  ⟨fun hc n hn => h.1 hc n (by omega), fun hc n hn => h.2 hc n (by omega)⟩
+theorem StepB.mono {M : Meths} {k k' : Nat} {env env' : Env} {b : PBlock} {c : Bool} (h : StepB M k env b c env') (hk : k ≤ k') :
+    StepB M k' env b c env' :=
+  ⟨fun hc n hn => h.1 hc n (by omega), fun hc n hn => h.2 hc n (by omega)⟩
+
+/-- replace the condition by an equal one -/
+theorem StepS.congr {M : Meths} {k : Nat} {env env' : Env} {s : PStmt} {c c' : Bool} (h : StepS M k env s c env') (hc : c = c') :
+    StepS M k env s c' env' := hc ▸ h
+theorem StepB.congr {M : Meths} {k : Nat} {env env' : Env} {b : PBlock} {c c' : Bool} (h : StepB M k env b c env') (hc : c = c') :
+    StepB M k env b c' env' := hc ▸ h
+
+theorem StepB.nil (M : Meths) (k : Nat) (env : Env) (hk : 1 ≤ k) : StepB M k env .nil true env := by
+  refine ⟨fun _ n hn => ?_, fun h => by cases h⟩
+  obtain ⟨m, rfl⟩ : ∃ m, n = m + 1 := ⟨n - 1, by omega⟩
+  rfl
+
+theorem StepB.cons {M : Meths} {k : Nat} {env env1 env2 : Env} {s : PStmt} {rest : PBlock} {c1 c2 : Bool}
+    (hs : StepS M k env s c1 env1) (hr : c1 = true → StepB M k env1 rest c2 env2) :
+    StepB M (k + 1) env (.cons s rest) (c1 && c2) env2 := by
+  constructor
+  · intro hc n hn
+    simp only [Bool.and_eq_true] at hc
+    obtain ⟨m, rfl⟩ : ∃ m, n = m + 1 := ⟨n - 1, by omega⟩
+    rw [exec2B_cons, hs.1 hc.1 m (by omega)]
+    exact (hr hc.1).1 hc.2 m (by omega)
+  · intro hc n hn
+    obtain ⟨m, rfl⟩ : ∃ m, n = m + 1 := ⟨n - 1, by omega⟩
+    rw [exec2B_cons]
+    cases h1 : c1 with
+    | false =>
+      obtain ⟨e, he⟩ := hs.2 h1 m (by omega)
+      exact ⟨e, by rw [he]⟩
+    | true =>
+      rw [hs.1 h1 m (by omega)]
+      rw [h1] at hc
+      exact (hr h1).2 (by simpa using hc) m (by omega)
+
+theorem StepB.cons' {M : Meths} {k ks : Nat} {env env1 env2 : Env} {s : PStmt} {rest : PBlock} {c1 c2 : Bool}
+    (hs : StepS M ks env s c1 env1) (hr : c1 = true → StepB M k env1 rest c2 env2) (hks : ks ≤ k := by decide) :
+    StepB M (k + 1) env (.cons s rest) (c1 && c2) env2 :=
+  StepB.cons (hs.mono hks) hr
+
+/-- a statement proved in the first semantics (no `tryCatch` inside) -/
+theorem StepS.of_exec {M : Meths} {env env' : Env} {s : PStmt} {c : Bool} (k : Nat)
+    (hl : loopFreeS s = true) (hd : dumperShapeS s = true) (hk : depthS s ≤ k)
+    (h : execStmt M env s = if c then .ok (.next env') else .error (.exc .ValueError)) : StepS M k env s c env' := by
+  constructor
+  · intro hc n hn
+    rw [hc] at h
+    exact exec2S_of_execStmt_ok M s n env _ hl hd (by omega) h
+  · intro hc n hn
+    rw [hc] at h
+    obtain ⟨e, he⟩ := exec2S_of_execStmt_error M s n env _ hl hd (by omega) h (.inl rfl)
+    exact ⟨e, he⟩
+
+/-- `if c: <block>` / `if c: <block> else: <block>` -/
+theorem StepS.ite {M : Meths} {k : Nat} {env env' : Env} {c : PExpr} {t e : PBlock} {v : PV} {b cnd : Bool}
+    (hc : eval M env c = .ok v) (ht : truthy v = .ok b) (hb : StepB M k env (if b then t else e) cnd env') :
+    StepS M (k + 1) env (.ite c t e) cnd env' := by
+  constructor
+  · intro h n hn
+    obtain ⟨m, rfl⟩ : ∃ m, n = m + 1 := ⟨n - 1, by omega⟩
+    rw [exec2S_ite, hc]; simp only [ht]
+    cases b <;> exact hb.1 h m (by omega)
+  · intro h n hn
+    obtain ⟨m, rfl⟩ : ∃ m, n = m + 1 := ⟨n - 1, by omega⟩
+    rw [exec2S_ite, hc]; simp only [ht]
+    cases b <;> exact hb.2 h m (by omega)
+
+/-- `raise ValueError` -/
+theorem raiseVE_exec (M : Meths) (env : Env) (n : Nat) (hn : 2 ≤ n) :
+    exec2B n M env raiseVE = .ok (.raised "ValueError" env) := by
+  obtain ⟨m, rfl⟩ : ∃ m, n = m + 2 := ⟨n - 2, by omega⟩
+  rfl
+
+/-- `try: t = E  except <cls>: H` when `E` evaluates -/
+theorem tryCatch_assign_ok (M : Meths) (env : Env) (t : String) (E : PExpr) (cls : String) (H : PBlock) (v : PV)
+    (h : eval M env E = .ok v) (n : Nat) (hn : 3 ≤ n) :
+    exec2S n M env (.tryCatch (.cons (.assign t E) .nil) cls H) = .ok (.next (env.set t v)) := by
+  obtain ⟨m, rfl⟩ : ∃ m, n = m + 3 := ⟨n - 3, by omega⟩
+  rw [exec2S_tryCatch, exec2B_single m M env _ rfl]
+  simp only [simple2, execStmt, h, ok_bind, ofFlow]
+
+/-- `try: t = E  except OverflowError: H` when `E` raises `OverflowError` -/
+theorem tryCatch_assign_ovf (M : Meths) (env : Env) (t : String) (E : PExpr) (H : PBlock)
+    (h : eval M env E = .error (.exc .OverflowError)) (n : Nat) (hn : 3 ≤ n) :
+    exec2S n M env (.tryCatch (.cons (.assign t E) .nil) "OverflowError" H) = exec2B (n - 1) M env H := by
+  obtain ⟨m, rfl⟩ : ∃ m, n = m + 3 := ⟨n - 3, by omega⟩
+  rw [exec2S_tryCatch, exec2B_single m M env _ rfl]
+  simp only [simple2, execStmt, h, error_bind, ofPErr]
+  rfl
+
+
+/-! ## 5. The statements of `validate` -/
+
+/-- the n-th top-level statement of a block -/
+def stmtAt : PBlock → Nat → PStmt
+  | .nil, _ => .pass
+  | .cons s _, 0 => s
+  | .cons _ r, n + 1 => stmtAt r n
+
+/-- `if not isinstance(x, int): raise ValueError` -/
+def notIntG (nm : String) : PStmt := .ite (.not_ (.call "isinstance_int" (.cons (.var nm) .nil))) raiseVE .nil
+/-- `if not isinstance(x, bool): raise ValueError` -/
+def notBoolG (nm : String) : PStmt := .ite (.not_ (.call "isinstance_bool" (.cons (.var nm) .nil))) raiseVE .nil
+/-- `if x < 0: raise ValueError` -/
+def ltZeroG (nm : String) : PStmt := .ite (.cmp .lt (.var nm) (.int 0)) raiseVE .nil
+/-- `if x < 0 or x > 0xFF: raise ValueError` -/
+def rangeG (nm : String) : PStmt := .ite (.or_ (.cmp .lt (.var nm) (.int 0)) (.cmp .gt (.var nm) (.int 255))) raiseVE .nil
+/-- `if x < 0 or not self._fits_float(x): raise ValueError` -/
+def fitsG (nm : String) : PStmt :=
+  .ite (.or_ (.cmp .lt (.var nm) (.int 0)) (.not_ (.call "self._fits_float" (.cons (.var nm) .nil)))) raiseVE .nil
+
+abbrev V (n : Nat) : PStmt := stmtAt Src.TransportLayerLogic_Params_validate n
+
+/-- the shape of the dumped body: 35 top-level statements, 24 of them instances of the five shapes above -/
+theorem body_eq : Src.TransportLayerLogic_Params_validate =
+    .cons (notIntG "self.rx_flowcontrol_timeout") (.cons (fitsG "self.rx_flowcontrol_timeout")
+    (.cons (notIntG "self.rx_consecutive_frame_timeout") (.cons (fitsG "self.rx_consecutive_frame_timeout")
+    (.cons (V 4)
+    (.cons (notIntG "self.stmin") (.cons (rangeG "self.stmin")
+    (.cons (notIntG "self.blocksize") (.cons (rangeG "self.blocksize")
+    (.cons (V 9)
+    (.cons (notIntG "self.wftmax") (.cons (ltZeroG "self.wftmax")
+    (.cons (notIntG "self.tx_data_length") (.cons (V 13)
+    (.cons (V 14)
+    (.cons (notIntG "self.max_frame_size") (.cons (ltZeroG "self.max_frame_size")
+    (.cons (notBoolG "self.can_fd") (.cons (notBoolG "self.bitrate_switch")
+    (.cons (V 19) (.cons (V 20) (.cons (V 21)
+    (.cons (notIntG "self.rate_limit_max_bitrate") (.cons (V 23)
+    (.cons (V 24) (.cons (V 25)
+    (.cons (V 26) (.cons (V 27)
+    (.cons (notBoolG "self.rate_limit_enable")
+    (.cons (V 29)
+    (.cons (notBoolG "self.listen_mode") (.cons (notBoolG "self.blocking_send")
+    (.cons (V 32) (.cons (V 33) (.cons (V 34) .nil)))))))))))))))))))))))))))))))))) := rfl
+
+/-- fuel that is enough for every top-level statement -/
+def K : Nat := 12
+
+section shapes
+variable (M : Meths) (env : Env) (nm : String) (v : PyVal)
+
+theorem notIntG_exec (h : env nm = some (pv v)) :
+    execStmt M env (notIntG nm) = if v.isInt then .ok (.next env) else .error (.exc .ValueError) := by
+  cases hi : v.isInt <;> simp [notIntG, raiseVE, execStmt, execBlock, eval, evalArgs, h, bi_int, hi]
+
+theorem notBoolG_exec (h : env nm = some (pv v)) :
+    execStmt M env (notBoolG nm) = if v.isBool then .ok (.next env) else .error (.exc .ValueError) := by
+  cases hi : v.isBool <;> simp [notBoolG, raiseVE, execStmt, execBlock, eval, evalArgs, h, bi_bool, hi]
+
+theorem ltZeroG_exec (h : env nm = some (pv v)) (hi : v.isInt = true) :
+    execStmt M env (ltZeroG nm) = if decide (0 ≤ v.intVal) then .ok (.next env) else .error (.exc .ValueError) := by
+  by_cases h1 : 0 ≤ v.intVal
+  · have h1' : ¬ v.intVal < 0 := by omega
+    simp [ltZeroG, raiseVE, execStmt, execBlock, eval, h, cmp_lt_int, hi, h1, h1']
+  · have h1' : v.intVal < 0 := by omega
+    simp [ltZeroG, raiseVE, execStmt, execBlock, eval, h, cmp_lt_int, hi, h1, h1']
+
+theorem rangeG_exec (h : env nm = some (pv v)) (hi : v.isInt = true) :
+    execStmt M env (rangeG nm) =
+      if decide (0 ≤ v.intVal) && decide (v.intVal ≤ 255) then .ok (.next env) else .error (.exc .ValueError) := by
+  by_cases h1 : 0 ≤ v.intVal <;> by_cases h2 : 255 < v.intVal <;>
+    simp [rangeG, raiseVE, execStmt, execBlock, eval, h, cmp_lt_int, cmp_gt_int, hi, h1, h2, Int.not_le.mpr, Int.not_lt.mp]
+
+theorem notIntG_step (h : env nm = some (pv v)) : StepS M K env (notIntG nm) v.isInt env :=
+  StepS.of_exec K rfl rfl (Nat.le_of_ble_eq_true rfl) (notIntG_exec M env nm v h)
+theorem notBoolG_step (h : env nm = some (pv v)) : StepS M K env (notBoolG nm) v.isBool env :=
+  StepS.of_exec K rfl rfl (Nat.le_of_ble_eq_true rfl) (notBoolG_exec M env nm v h)
+theorem ltZeroG_step (h : env nm = some (pv v)) (hi : v.isInt = true) : StepS M K env (ltZeroG nm) (decide (0 ≤ v.intVal)) env :=
+  StepS.of_exec K rfl rfl (Nat.le_of_ble_eq_true rfl) (ltZeroG_exec M env nm v h hi)
+theorem rangeG_step (h : env nm = some (pv v)) (hi : v.isInt = true) :
+    StepS M K env (rangeG nm) (decide (0 ≤ v.intVal) && decide (v.intVal ≤ 255)) env :=
+  StepS.of_exec K rfl rfl (Nat.le_of_ble_eq_true rfl) (rangeG_exec M env nm v h hi)
+end shapes
+
+
+/-- `x == k` for an `int` / `bool` value -/
+theorem pvEq_int (v : PyVal) (h : v.isInt = true) (k : Int) : pvEq (pv v) (.sc (.py (.int k))) = (v.intVal == k) := by
+  cases v <;> simp_all [pvEq, Sc.eq, PyVal.pyEq, PyVal.isInt, PyVal.intVal]
+
+section uniq
+variable (M : Meths) (env : Env)
+
+/-- statement 4: `if self.tx_padding is not None: ...` -/
+theorem s4_exec (v : PyVal) (h : env "self.tx_padding" = some (pv v)) :
+    execStmt M env (V 4) = if v.isNone || intIn v 0 0xFF then .ok (.next env) else .error (.exc .ValueError) := by
+  cases hn : v.isNone
+  · cases hi : v.isInt
+    · simp [V, stmtAt, Src.TransportLayerLogic_Params_validate, execStmt, execBlock, eval, evalArgs, h, bne_pnone, bi_int, hn, hi, intIn]
+    · by_cases h1 : v.intVal < 0 <;> by_cases h2 : 255 < v.intVal <;>
+        simp [V, stmtAt, Src.TransportLayerLogic_Params_validate, execStmt, execBlock, eval, evalArgs, h, bne_pnone, bi_int, hn, hi,
+          intIn, cmp_lt_int, cmp_gt_int, h1, h2] <;> omega
+  · simp [V, stmtAt, Src.TransportLayerLogic_Params_validate, execStmt, execBlock, eval, h, bne_pnone, hn]
+
+/-- statement 13: `if self.tx_data_length not in [8, 12, 16, 20, 24, 32, 48, 64]: raise` -/
+theorem s13_exec (v : PyVal) (h : env "self.tx_data_length" = some (pv v)) (hi : v.isInt = true) :
+    execStmt M env (V 13) =
+      if decide (v.intVal ∈ [8, 12, 16, 20, 24, 32, 48, 64]) then .ok (.next env) else .error (.exc .ValueError) := by
+  simp [V, stmtAt, Src.TransportLayerLogic_Params_validate, execStmt, execBlock, eval, evalArgs, h, pvEq_int, hi]
+  split <;> split <;> first | rfl | (exfalso; omega)
+
+
+theorem blk_check (s : PStmt) (rest : PBlock) (c : Bool)
+    (h : execStmt M env s = if c then .ok (.next env) else .error (.exc .ValueError)) :
+    execBlock M env (.cons s rest) = if c then execBlock M env rest else .error (.exc .ValueError) := by
+  cases c <;> simp [execBlock, h]
+
+theorem ite_exec (c : PExpr) (t e : PBlock) (v : PV) (b : Bool) (hc : eval M env c = .ok v) (ht : truthy v = .ok b) :
+    execStmt M env (.ite c t e) = execBlock M env (if b then t else e) := by
+  cases b <;> simp [execStmt, hc, ht]
+
+theorem guard_exec (c : PExpr) (v : PV) (b : Bool) (hc : eval M env c = .ok v) (ht : truthy v = .ok b) :
+    execStmt M env (.ite c raiseVE .nil) = if !b then .ok (.next env) else .error (.exc .ValueError) := by
+  cases b <;> simp [execStmt, execBlock, raiseVE, hc, ht]
+
+/-- `if self.tx_data_min_length not in [1, ..., 64]: raise` -/
+def minLenIn : PStmt := stmtAt (match V 14 with | .ite _ t _ => t | _ => .nil) 1
+/-- `if self.tx_data_min_length > self.tx_data_length: raise` -/
+def minLenGt : PStmt := stmtAt (match V 14 with | .ite _ t _ => t | _ => .nil) 2
+
+theorem s14_eq : V 14 = .ite (.isNotNone (.var "self.tx_data_min_length"))
+    (.cons (notIntG "self.tx_data_min_length") (.cons minLenIn (.cons minLenGt .nil))) .nil := rfl
+
+theorem minLenIn_exec (v : PyVal) (h : env "self.tx_data_min_length" = some (pv v)) (hi : v.isInt = true) :
+    execStmt M env minLenIn =
+      if decide (v.intVal ∈ [1, 2, 3, 4, 5, 6, 7, 8, 12, 16, 20, 24, 32, 48, 64]) then .ok (.next env)
+      else .error (.exc .ValueError) := by
+  simp [minLenIn, V, stmtAt, Src.TransportLayerLogic_Params_validate, execStmt, execBlock, eval, evalArgs, h, pvEq_int, hi]
+  split <;> split <;> first | rfl | (exfalso; omega)
+
+theorem minLenGt_exec (v t : PyVal) (h : env "self.tx_data_min_length" = some (pv v)) (ht : env "self.tx_data_length" = some (pv t))
+    (hi : v.isInt = true) (hti : t.isInt = true) :
+    execStmt M env minLenGt = if decide (v.intVal ≤ t.intVal) then .ok (.next env) else .error (.exc .ValueError) := by
+  by_cases h1 : t.intVal < v.intVal
+  · have h2 : ¬ v.intVal ≤ t.intVal := by omega
+    simp [minLenGt, V, stmtAt, Src.TransportLayerLogic_Params_validate, execStmt, execBlock, eval, h, ht, cmp_gt_int_int, hi, hti, h1, h2]
+  · have h2 : v.intVal ≤ t.intVal := by omega
+    simp [minLenGt, V, stmtAt, Src.TransportLayerLogic_Params_validate, execStmt, execBlock, eval, h, ht, cmp_gt_int_int, hi, hti, h1, h2]
+
+/-- statement 14: `if self.tx_data_min_length is not None: ...` -/
+theorem s14_exec (v t : PyVal) (h : env "self.tx_data_min_length" = some (pv v)) (ht : env "self.tx_data_length" = some (pv t))
+    (hti : t.isInt = true) :
+    execStmt M env (V 14) =
+      if v.isNone || (minLenOk v && decide (v.intVal ≤ t.intVal)) then .ok (.next env) else .error (.exc .ValueError) := by
+  rw [s14_eq, ite_exec M env _ _ _ (pbool (!v.isNone)) (!v.isNone) (by simp [eval, h, bne_pnone]) rfl]
+  cases hn : v.isNone
+  · simp only [Bool.not_false, if_true, Bool.false_or]
+    rw [blk_check M env _ _ _ (notIntG_exec M env _ v h)]
+    cases hi : v.isInt
+    · simp [minLenOk, hi]
+    · rw [if_pos rfl, blk_check M env _ _ _ (minLenIn_exec M env v h hi), blk_check M env _ _ _ (minLenGt_exec M env v t h ht hi hti)]
+      simp only [minLenOk, hi, Bool.true_and, execBlock]
+      cases decide (v.intVal ∈ [1, 2, 3, 4, 5, 6, 7, 8, 12, 16, 20, 24, 32, 48, 64]) <;> cases decide (v.intVal ≤ t.intVal) <;> rfl
+  · simp [execBlock]
+
+
+/-- statement 23: `if self.rate_limit_max_bitrate <= 0: raise` -/
+theorem s23_exec (v : PyVal) (h : env "self.rate_limit_max_bitrate" = some (pv v)) (hi : v.isInt = true) :
+    execStmt M env (V 23) = if decide (0 < v.intVal) then .ok (.next env) else .error (.exc .ValueError) := by
+  have hn : isNumber v = true := by cases v <;> simp_all [PyVal.isInt, isNumber]
+  have hl : (!v.leZero) = decide (0 < v.intVal) := by
+    cases v <;> simp_all [PyVal.isInt, PyVal.leZero, PyVal.intVal]
+    case bool b => cases b <;> rfl
+    case int i => by_cases h0 : 0 < i <;> simp [h0] <;> omega
+  rw [show V 23 = .ite (.cmp .le (.var "self.rate_limit_max_bitrate") (.int 0)) raiseVE .nil from rfl,
+    guard_exec M env _ (pbool v.leZero) v.leZero (by simp [eval, h, cmp_le_zero, hn]) rfl, hl]
+
+/-- statement 24: `if not (isinstance(w, float) or isinstance(w, int)): raise` -/
+theorem s24_exec (w : PyVal) (h : env "self.rate_limit_window_size" = some (pv w)) :
+    execStmt M env (V 24) = if w.isFloat || w.isInt then .ok (.next env) else .error (.exc .ValueError) := by
+  cases h1 : w.isFloat <;> cases h2 : w.isInt <;>
+    simp [V, stmtAt, Src.TransportLayerLogic_Params_validate, execStmt, execBlock, eval, evalArgs, h, bi_float, bi_int, h1, h2]
+
+/-- statement 25: `if self.rate_limit_window_size <= 0: raise` -/
+theorem s25_exec (w : PyVal) (h : env "self.rate_limit_window_size" = some (pv w)) (hn : isNumber w = true) :
+    execStmt M env (V 25) = if !w.leZero then .ok (.next env) else .error (.exc .ValueError) := by
+  rw [show V 25 = .ite (.cmp .le (.var "self.rate_limit_window_size") (.int 0)) raiseVE .nil from rfl,
+    guard_exec M env _ (pbool w.leZero) w.leZero (by simp [eval, h, cmp_le_zero, hn]) rfl]
+
+/-- statement 27: `if not window_bits_finite: raise` -/
+theorem s27_exec (b : Bool) (h : env "window_bits_finite" = some (pbool b)) :
+    execStmt M env (V 27) = if b then .ok (.next env) else .error (.exc .ValueError) := by
+  rw [show V 27 = .ite (.not_ (.var "window_bits_finite")) raiseVE .nil from rfl,
+    guard_exec M env _ (pbool (!b)) (!b) (by simp [eval, h]) rfl, Bool.not_not]
+
+end uniq
+
+section withMeths
+variable (p : ParamArgs) (F : Facts) (env : Env)
+local notation "M" => paramsMeths p F
+
+theorem fitsG_exec (nm : String) (v : PyVal) (h : env nm = some (pv v)) (hi : v.isInt = true) :
+    execStmt M env (fitsG nm) =
+      if decide (0 ≤ v.intVal) && F.fits v.intVal then .ok (.next env) else .error (.exc .ValueError) := by
+  by_cases h1 : v.intVal < 0
+  · have h1' : ¬ 0 ≤ v.intVal := by omega
+    rw [fitsG, guard_exec M env _ (pbool true) true (by simp [eval, h, cmp_lt_int, hi, h1]) rfl]
+    simp [h1']
+  · have h1' : 0 ≤ v.intVal := by omega
+    rw [fitsG, guard_exec M env _ (pbool (!F.fits v.intVal)) (!F.fits v.intVal)
+      (by simp [eval, evalArgs, h, cmp_lt_int, hi, h1, nb_fits, M_fits]) rfl]
+    simp [h1']
+
+theorem fitsG_step (nm : String) (v : PyVal) (h : env nm = some (pv v)) (hi : v.isInt = true) :
+    StepS M K env (fitsG nm) (decide (0 ≤ v.intVal) && F.fits v.intVal) env :=
+  StepS.of_exec K rfl rfl (Nat.le_of_ble_eq_true rfl) (fitsG_exec p F env nm v h hi)
+
+/-- statement 32: `if not isinstance(self.logger_name, str): raise` -/
+theorem s32_exec (l : PV) (h : env "self.logger_name" = some l) :
+    execStmt M env (V 32) = if isStrPV l then .ok (.next env) else .error (.exc .ValueError) := by
+  rw [show V 32 = .ite (.not_ (.call "isinstance_str" (.cons (.var "self.logger_name") .nil))) raiseVE .nil from rfl,
+    guard_exec M env _ (pbool (!isStrPV l)) (!isStrPV l) (by simp [eval, evalArgs, h, nb_isStr, M_isStr]) rfl, Bool.not_not]
+
+/-- statement 33: `if not callable(self.wait_func): raise` -/
+theorem s33_exec (w : PV) (h : env "self.wait_func" = some w) :
+    execStmt M env (V 33) = if isCallablePV w then .ok (.next env) else .error (.exc .ValueError) := by
+  rw [show V 33 = .ite (.not_ (.call "callable" (.cons (.var "self.wait_func") .nil))) raiseVE .nil from rfl,
+    guard_exec M env _ (pbool (!isCallablePV w)) (!isCallablePV w) (by simp [eval, evalArgs, h, nb_callable, M_callable]) rfl,
+    Bool.not_not]
+
+/-- statement 34: `try: self.wait_func(0.001)  except Exception as e: raise ValueError` -/
+theorem s34_exec : execStmt M env (V 34) = if F.waitExc.isNone then .ok (.next env) else .error (.exc .ValueError) := by
+  cases hw : F.waitExc <;>
+    simp [V, stmtAt, Src.TransportLayerLogic_Params_validate, execStmt, execBlock, eval, evalArgs, nb_wait, nb_lit, M_lit, lit_001,
+      M_wait, hw, nb_caught, M_caught]
+
+
+abbrev tatKey : String := "self.default_target_address_type"
+
+/-- statement 19, the attribute holding a raw Python value: `if isinstance(t, int): t = isotp.TargetAddressType(t)` -/
+theorem s19_raw (v : PyVal) (h : env tatKey = some (pv v)) :
+    execStmt M env (V 19) =
+      if !v.isInt || (v.intVal == 0 || v.intVal == 1)
+      then .ok (.next (if v.isInt then env.set tatKey (tatOfInt v.intVal) else env)) else .error (.exc .ValueError) := by
+  cases hi : v.isInt
+  · simp [V, stmtAt, Src.TransportLayerLogic_Params_validate, execStmt, execBlock, eval, evalArgs, h, bi_int, hi, tatKey]
+  · by_cases h0 : v.intVal = 0
+    · simp [V, stmtAt, Src.TransportLayerLogic_Params_validate, execStmt, execBlock, eval, evalArgs, h, bi_int, hi, tatKey,
+        nb_tat, M_tat, pyTat, tatOfInt, h0]
+    · by_cases h1 : v.intVal = 1
+      · simp [V, stmtAt, Src.TransportLayerLogic_Params_validate, execStmt, execBlock, eval, evalArgs, h, bi_int, hi, tatKey,
+          nb_tat, M_tat, pyTat, tatOfInt, h0, h1]
+      · simp [V, stmtAt, Src.TransportLayerLogic_Params_validate, execStmt, execBlock, eval, evalArgs, h, bi_int, hi, tatKey,
+          nb_tat, M_tat, pyTat, tatOfInt, h0, h1]
+
+/-- statement 19, the attribute holding a `TargetAddressType` member -/
+theorem s19_member (c m : String) (h : env tatKey = some (.sc (.enum c m))) :
+    execStmt M env (V 19) = .ok (.next env) := by
+  simp [V, stmtAt, Src.TransportLayerLogic_Params_validate, execStmt, execBlock, eval, evalArgs, h, bi_int_enum, tatKey]
+
+/-- statement 20: `if not isinstance(t, isotp.TargetAddressType): raise` -/
+theorem s20_exec (tv : PV) (h : env tatKey = some tv) :
+    execStmt M env (V 20) = if isTatPV tv then .ok (.next env) else .error (.exc .ValueError) := by
+  rw [show V 20 = .ite (.not_ (.call "isinstance_TargetAddressType" (.cons (.var tatKey) .nil))) raiseVE .nil from rfl,
+    guard_exec M env _ (pbool (!isTatPV tv)) (!isTatPV tv) (by simp [eval, evalArgs, h, nb_isTat, M_isTat]) rfl, Bool.not_not]
+
+/-- statement 21: `if t not in [TargetAddressType.Physical, TargetAddressType.Functional]: raise` -/
+theorem s21_exec (tv : PV) (h : env tatKey = some tv)
+    (hP : env "isotp.address.TargetAddressType.Physical" = some tatPhys)
+    (hF : env "isotp.address.TargetAddressType.Functional" = some tatFunc) :
+    execStmt M env (V 21) = if pvEq tv tatPhys || pvEq tv tatFunc then .ok (.next env) else .error (.exc .ValueError) := by
+  cases h1 : pvEq tv tatPhys <;> cases h2 : pvEq tv tatFunc <;>
+    simp [V, stmtAt, Src.TransportLayerLogic_Params_validate, execStmt, execBlock, eval, evalArgs, h, hP, hF, tatKey] <;>
+    simp_all [tatPhys, tatFunc]
+
+
+/-! ### the float facts -/
+
+/-- `v` is an `int` (not a `bool`) too large to be converted to a float -/
+def bigInt (F : Facts) : PyVal → Bool
+  | .int i => F.big i
+  | _ => false
+
+/-- **What ties the model's float facts (`p.prod`, `p.ovrScaledFinite`) to the primitives of `Facts`** - each clause is what
+    `harness/core.py` (`do_params`) computes when it builds the `ParamArgs` of a run:
+    * `ovr`: when `float(override_receiver_stmin)` raises `OverflowError`, `ovrScaledFinite` is handed over as `False`;
+    * `prodFloat`: the product of the bitrate with a float window is a float;
+    * `prodBig`: when `bitrate * <float window>` raises `OverflowError`, `prod` is handed over as `+inf`;
+    * `prodInt`: with an `int` / `bool` window the product is the exact integer, handed over as such unless it (or the window)
+      is too large for a float, in which case `prod` is handed over as `+inf`. -/
+structure Coherent (p : ParamArgs) (F : Facts) : Prop where
+  ovr : bigInt F p.overrideStmin = true → p.ovrScaledFinite = false
+  prodFloat : p.rlWindow.isFloat = true → p.prod.isFloat = true
+  prodBig : p.rlWindow.isFloat = true → p.rlBitrate.isInt = true → F.big p.rlBitrate.intVal = true → p.prod.isFinite = false
+  prodInt : p.rlWindow.isInt = true → p.rlBitrate.isInt = true →
+    if bigInt F p.rlWindow || F.big (p.rlBitrate.intVal * p.rlWindow.intVal) then p.prod.isFinite = false
+    else p.prod = .int (p.rlBitrate.intVal * p.rlWindow.intVal)
+
+/-- `math.isfinite(w) and math.isfinite(bitrate * w)` in the model -/
+def finBits (p : ParamArgs) : Bool := p.rlWindow.isFinite && p.prod.isFinite
+
+abbrev brKey : String := "self.rate_limit_max_bitrate"
+abbrev winKey : String := "self.rate_limit_window_size"
+
+/-- the expression assigned to `window_bits_finite` -/
+abbrev E26 : PExpr :=
+  .and_ (.call "math.isfinite" (.cons (.var winKey) .nil))
+    (.call "math.isfinite" (.cons (.call "__mul__" (.cons (.var brKey) (.cons (.var winKey) .nil))) .nil))
+
+theorem isFloat_isFinite (v : PyVal) (h : v.isFloat = true) : pyIsFinite F v = .ok (pbool v.isFinite) := by
+  cases v <;> simp_all [PyVal.isFloat, pyIsFinite, PyVal.isFinite]
+theorem isFloat_not_isInt (v : PyVal) (h : v.isFloat = true) : v.isInt = false := by
+  cases v <;> simp_all [PyVal.isFloat, PyVal.isInt]
+theorem isInt_not_isFloat (v : PyVal) (h : v.isInt = true) : v.isFloat = false := by
+  cases v <;> simp_all [PyVal.isFloat, PyVal.isInt]
+
+theorem pyIsFinite_int (i : Int) :
+    pyIsFinite F (.int i) = if F.big i then .error (.exc .OverflowError) else .ok (pbool true) := rfl
+theorem isFinite_int (i : Int) : (PyVal.int i).isFinite = true := rfl
+
+theorem pyMul_int (a b : PyVal) (ha : a.isInt = true) (hb : b.isInt = true) :
+    pyMul p F a b = .ok (pint (a.intVal * b.intVal)) := by
+  simp [pyMul, ha, hb]
+theorem pyMul_bw_float (hbi : p.rlBitrate.isInt = true) (hwf : p.rlWindow.isFloat = true) :
+    pyMul p F p.rlBitrate p.rlWindow =
+      if F.big p.rlBitrate.intVal then .error (.exc .OverflowError) else .ok (pv p.prod) := by
+  simp [pyMul, hbi, hwf, isFloat_not_isInt _ hwf, isInt_not_isFloat _ hbi]
+theorem pyMul_1e9 (a : PyVal) (ha : a.isFloat = true) : pyMul p F a lit1e9 = .ok (pv (scaled p a)) := by
+  simp [pyMul, ha, isFloat_not_isInt _ ha]
+
+theorem eval_E26 (hC : Coherent p F) (hb : env brKey = some (pv p.rlBitrate)) (hw : env winKey = some (pv p.rlWindow))
+    (hbi : p.rlBitrate.isInt = true) (hwn : (p.rlWindow.isFloat || p.rlWindow.isInt) = true) :
+    eval M env E26 = .ok (pbool (finBits p)) ∨ (eval M env E26 = .error (.exc .OverflowError) ∧ finBits p = false) := by
+  cases hwf : p.rlWindow.isFloat
+  · -- an `int` / `bool` window
+    have hwi : p.rlWindow.isInt = true := by simpa [hwf] using hwn
+    have hm := pyMul_int p F _ _ hbi hwi
+    have hc := hC.prodInt hwi hbi
+    have hfw : p.rlWindow.isFinite = true := by cases hw' : p.rlWindow <;> simp_all [PyVal.isInt, PyVal.isFinite]
+    cases hbw : bigInt F p.rlWindow
+    · have e1 : pyIsFinite F p.rlWindow = .ok (pbool true) := by
+        cases hw' : p.rlWindow <;> simp_all [PyVal.isInt, pyIsFinite, bigInt]
+      cases hbp : F.big (p.rlBitrate.intVal * p.rlWindow.intVal)
+      · left
+        simp only [hbw, hbp, Bool.or_self, Bool.false_eq_true, if_false] at hc
+        simp [E26, eval, evalArgs, hb, hw, nb_isfinite, M_isfinite, e1, nb_mul, M_mul, hm, pyIsFinite_int, hbp, finBits, hfw, hc,
+          isFinite_int]
+      · right
+        simp only [hbw, hbp, Bool.false_or, if_true] at hc
+        simp [E26, eval, evalArgs, hb, hw, nb_isfinite, M_isfinite, e1, nb_mul, M_mul, hm, pyIsFinite_int, hbp, finBits, hc]
+    · right
+      have e1 : pyIsFinite F p.rlWindow = .error (.exc .OverflowError) := by
+        cases hw' : p.rlWindow <;> simp_all [PyVal.isInt, pyIsFinite, bigInt]
+      simp only [hbw, Bool.true_or, if_true] at hc
+      simp [E26, eval, evalArgs, hb, hw, nb_isfinite, M_isfinite, e1, finBits, hc]
+  · -- a float window
+    have h1 := hC.prodFloat hwf
+    have h2 := hC.prodBig hwf hbi
+    have hm := pyMul_bw_float p F hbi hwf
+    have e1 := isFloat_isFinite F _ hwf
+    cases hfw : p.rlWindow.isFinite
+    · left
+      simp [E26, eval, evalArgs, hb, hw, nb_isfinite, M_isfinite, e1, hfw, finBits]
+    · cases hbig : F.big p.rlBitrate.intVal
+      · left
+        simp [E26, eval, evalArgs, hb, hw, nb_isfinite, M_isfinite, e1, hfw, nb_mul, M_mul, hm, hbig, finBits,
+          isFloat_isFinite F _ h1]
+      · right
+        simp [E26, eval, evalArgs, hb, hw, nb_isfinite, M_isfinite, e1, hfw, nb_mul, M_mul, hm, hbig, finBits, h2 hbig]
+
+
+theorem s26_eq : V 26 = .tryCatch (.cons (.assign "window_bits_finite" E26) .nil) "OverflowError"
+    (.cons (.assign "window_bits_finite" .ff) .nil) := rfl
+
+/-- statement 26: `try: window_bits_finite = ...  except OverflowError: window_bits_finite = False` -/
+theorem s26_step (hC : Coherent p F) (hb : env brKey = some (pv p.rlBitrate)) (hw : env winKey = some (pv p.rlWindow))
+    (hbi : p.rlBitrate.isInt = true) (hwn : (p.rlWindow.isFloat || p.rlWindow.isInt) = true) :
+    StepS M K env (V 26) true (env.set "window_bits_finite" (pbool (finBits p))) := by
+  refine ⟨fun _ n hn => ?_, fun h => by cases h⟩
+  have hn3 : 3 ≤ n := by simp only [K] at hn; omega
+  rw [s26_eq]
+  rcases eval_E26 p F env hC hb hw hbi hwn with h | ⟨h, hf⟩
+  · exact tryCatch_assign_ok M env _ _ _ _ _ h n hn3
+  · rw [tryCatch_assign_ovf M env _ _ _ h n hn3, hf]
+    obtain ⟨m, rfl⟩ : ∃ m, n = m + 3 := ⟨n - 3, by omega⟩
+    show exec2B (m + 2) M env _ = _
+    rw [exec2B_single m M env _ rfl]
+    rfl
+
+/-- `bitrate * window` once the finiteness check has passed: the model's `prod` -/
+theorem pyMul_bw (hC : Coherent p F) (hbi : p.rlBitrate.isInt = true) (hwn : (p.rlWindow.isFloat || p.rlWindow.isInt) = true)
+    (hfin : finBits p = true) : pyMul p F p.rlBitrate p.rlWindow = .ok (pv p.prod) := by
+  simp only [finBits, Bool.and_eq_true] at hfin
+  cases hwf : p.rlWindow.isFloat
+  · have hwi : p.rlWindow.isInt = true := by simpa [hwf] using hwn
+    have hc := hC.prodInt hwi hbi
+    rw [pyMul_int p F _ _ hbi hwi]
+    split at hc
+    · rw [hfin.2] at hc; cases hc
+    · rw [hc]
+  · rw [pyMul_bw_float p F hbi hwf]
+    cases hbig : F.big p.rlBitrate.intVal
+    · rfl
+    · have := hC.prodBig hwf hbi hbig
+      rw [hfin.2] at this; cases this
+
+theorem isFinite_isNumber (v : PyVal) (h : v.isFinite = true) : isNumber v = true := by
+  cases v <;> simp_all [PyVal.isFinite, isNumber]
+
+/-- statement 29: `if bitrate * window < tx_data_length * 8: raise` -/
+theorem s29_exec (hC : Coherent p F) (hb : env brKey = some (pv p.rlBitrate)) (hw : env winKey = some (pv p.rlWindow))
+    (ht : env "self.tx_data_length" = some (pv p.txDl))
+    (hbi : p.rlBitrate.isInt = true) (hwn : (p.rlWindow.isFloat || p.rlWindow.isInt) = true) (hfin : finBits p = true)
+    (hti : p.txDl.isInt = true) :
+    execStmt M env (V 29) =
+      if !(p.prod.ltInt (p.txDl.intVal * 8)) then .ok (.next env) else .error (.exc .ValueError) := by
+  have hpn : isNumber p.prod = true := isFinite_isNumber _ (by simp only [finBits, Bool.and_eq_true] at hfin; exact hfin.2)
+  have h8 : pyMul p F p.txDl (.int 8) = .ok (pint (p.txDl.intVal * 8)) := pyMul_int p F _ _ hti rfl
+  rw [show V 29 = .ite (.cmp .lt (.call "__mul__" (.cons (.var brKey) (.cons (.var winKey) .nil)))
+        (.call "__mul__" (.cons (.var "self.tx_data_length") (.cons (.int 8) .nil)))) raiseVE .nil from rfl,
+    guard_exec M env _ (pbool (p.prod.ltInt (p.txDl.intVal * 8))) (p.prod.ltInt (p.txDl.intVal * 8))
+      (by simp [eval, evalArgs, hb, hw, ht, nb_mul, M_mul, M_mul_pint, pyMul_bw p F hC hbi hwn hfin, h8, cmp_lt_num, hpn]) rfl]
+
+
+/-! ### statement 9: `override_receiver_stmin` -/
+
+abbrev ovrKey : String := "self.override_receiver_stmin"
+
+/-- `float(v)` as a value (when it does not overflow) -/
+def floatOf : PyVal → PyVal
+  | .int i => .float i 1
+  | .bool b => .float (if b then 1 else 0) 1
+  | v => v
+
+def ovr1 : PStmt := stmtAt (match V 9 with | .ite _ t _ => t | _ => .nil) 0
+def ovr3 : PStmt := stmtAt (match V 9 with | .ite _ t _ => t | _ => .nil) 2
+def ovr2 : PStmt := .tryCatch (.cons (.assign ovrKey (.call "float" (.cons (.var ovrKey) .nil))) .nil) "OverflowError" raiseVE
+
+theorem s9_eq : V 9 = .ite (.isNotNone (.var ovrKey)) (.cons ovr1 (.cons ovr2 (.cons ovr3 .nil))) .nil := rfl
+
+theorem pyFloat_num (v : PyVal) (hn : isNumber v = true) :
+    pyFloat F v = if bigInt F v then .error (.exc .OverflowError) else .ok (pv (floatOf v)) := by
+  cases v <;> first | rfl | simp [isNumber] at hn
+
+theorem floatOf_isFloat (v : PyVal) (hn : isNumber v = true) : (floatOf v).isFloat = true := by
+  cases v <;> simp_all [isNumber, floatOf, PyVal.isFloat]
+
+theorem isFinite_scaled (v : PyVal) (hf : v.isFloat = true) :
+    pyIsFinite F (scaled p v) = .ok (pbool (v.isFinite && p.ovrScaledFinite)) := by
+  cases v with
+  | float n d =>
+    simp only [scaled, PyVal.isFinite, Bool.true_and]
+    cases p.ovrScaledFinite
+    · simp only [Bool.false_eq_true, if_false]; by_cases h0 : n < 0 <;> simp [h0, pyIsFinite]
+    · rfl
+  | nan => rfl
+  | posInf => rfl
+  | negInf => rfl
+  | _ => simp [PyVal.isFloat] at hf
+
+theorem ovr1_exec (v : PyVal) (h : env ovrKey = some (pv v)) :
+    execStmt M env ovr1 = if isNumber v && !v.isBool then .ok (.next env) else .error (.exc .ValueError) := by
+  cases h1 : isNumber v <;> cases h2 : v.isBool <;>
+    simp [ovr1, V, stmtAt, Src.TransportLayerLogic_Params_validate, execStmt, execBlock, eval, evalArgs, h, bi_intfloat, bi_bool, h1, h2]
+
+theorem ovr2_step (v : PyVal) (h : env ovrKey = some (pv v)) (hn : isNumber v = true) :
+    StepS M K env ovr2 (!bigInt F v) (env.set ovrKey (pv (floatOf v))) := by
+  have he : eval M env (.call "float" (.cons (.var ovrKey) .nil)) =
+      if bigInt F v then .error (.exc .OverflowError) else .ok (pv (floatOf v)) := by
+    simp [eval, evalArgs, h, nb_float, M_float, pyFloat_num F v hn]
+  constructor
+  · intro hc n hn
+    have hn3 : 3 ≤ n := by simp only [K] at hn; omega
+    simp only [Bool.not_eq_true'] at hc
+    rw [hc] at he
+    exact tryCatch_assign_ok M env _ _ _ _ _ he n hn3
+  · intro hc n hn
+    have hn3 : 3 ≤ n := by simp only [K] at hn; omega
+    simp only [Bool.not_eq_false'] at hc
+    rw [hc] at he
+    refine ⟨env, ?_⟩
+    rw [ovr2, tryCatch_assign_ovf M env _ _ _ he n hn3]
+    exact raiseVE_exec M env (n - 1) (by omega)
+
+theorem ovr3_exec (fv : PyVal) (h : env ovrKey = some (pv fv)) (hf : fv.isFloat = true) :
+    execStmt M env ovr3 =
+      if !fv.ltZero && (fv.isFinite && p.ovrScaledFinite) then .ok (.next env) else .error (.exc .ValueError) := by
+  have hn : isNumber fv = true := by cases fv <;> simp_all [PyVal.isFloat, isNumber]
+  cases hl : fv.ltZero
+  · rw [show ovr3 = .ite (.or_ (.cmp .lt (.var ovrKey) (.int 0)) (.not_ (.call "math.isfinite" (.cons (.call "__mul__"
+        (.cons (.var ovrKey) (.cons (.call "__float__" (.cons (.strLit "1000000000.0") .nil)) .nil))) .nil)))) raiseVE .nil from rfl,
+      guard_exec M env _ (pbool (!(fv.isFinite && p.ovrScaledFinite))) (!(fv.isFinite && p.ovrScaledFinite))
+        (by simp [eval, evalArgs, h, cmp_lt_zero, hn, hl, nb_isfinite, M_isfinite, nb_mul, M_mul, nb_lit, M_lit, lit_1e9,
+              pyMul_1e9 p F fv hf, isFinite_scaled p F fv hf]) rfl]
+    simp
+  · rw [show ovr3 = .ite (.or_ (.cmp .lt (.var ovrKey) (.int 0)) (.not_ (.call "math.isfinite" (.cons (.call "__mul__"
+        (.cons (.var ovrKey) (.cons (.call "__float__" (.cons (.strLit "1000000000.0") .nil)) .nil))) .nil)))) raiseVE .nil from rfl,
+      guard_exec M env _ (pbool true) true (by simp [eval, h, cmp_lt_zero, hn, hl]) rfl]
+    simp
+
+/-- the model's clause for `override_receiver_stmin` -/
+def ovrOk (p : ParamArgs) : Bool :=
+  p.overrideStmin.isNone ||
+    ((p.overrideStmin.isInt || p.overrideStmin.isFloat) && !p.overrideStmin.isBool &&
+      !p.overrideStmin.ltZero && p.overrideStmin.isFinite && p.ovrScaledFinite)
+
+/-- the object after statement 9: `override_receiver_stmin` normalised to a float -/
+def env9 (p : ParamArgs) (env : Env) : Env :=
+  if p.overrideStmin.isNone then env else env.set ovrKey (pv (floatOf p.overrideStmin))
+
+theorem ovr_cond (hC : Coherent p F) (hn : p.overrideStmin.isNone = false) :
+    (isNumber p.overrideStmin && !p.overrideStmin.isBool &&
+      (!bigInt F p.overrideStmin &&
+        ((!(floatOf p.overrideStmin).ltZero && ((floatOf p.overrideStmin).isFinite && p.ovrScaledFinite)) && true))) = ovrOk p := by
+  have hc := hC.ovr
+  unfold ovrOk
+  cases hv : p.overrideStmin <;> simp_all [isNumber, PyVal.isBool, PyVal.isInt, PyVal.isFloat, PyVal.isNone, bigInt, floatOf,
+    PyVal.ltZero, PyVal.isFinite]
+  case int i => cases hb : F.big i <;> simp_all
+
+
+theorem set_same (env : Env) (k : String) (v : PV) : (env.set k v) k = some v := by simp [Env.set]
+theorem set_other (env : Env) (k k' : String) (v : PV) (h : k' ≠ k) : (env.set k v) k' = env k' := by simp [Env.set, h]
+
+/-- statement 9: `if self.override_receiver_stmin is not None: ...` -/
+theorem s9_step (hC : Coherent p F) (h : env ovrKey = some (pv p.overrideStmin)) :
+    StepS M (K + 4) env (V 9) (ovrOk p) (env9 p env) := by
+  rw [s9_eq]
+  cases hn : p.overrideStmin.isNone
+  · refine StepS.ite (v := pbool true) (b := true) (by simp [eval, h, bne_pnone, hn]) rfl ?_
+    have hb : StepB M (K + 3) env (.cons ovr1 (.cons ovr2 (.cons ovr3 .nil))) _ (env.set ovrKey (pv (floatOf p.overrideStmin))) :=
+      StepB.cons' (StepS.of_exec K rfl rfl (Nat.le_of_ble_eq_true rfl) (ovr1_exec p F env _ h)) fun h1 => by
+        simp only [Bool.and_eq_true] at h1
+        exact StepB.cons' (ovr2_step p F env _ h h1.1) fun _ =>
+          StepB.cons' (StepS.of_exec K rfl rfl (Nat.le_of_ble_eq_true rfl)
+            (ovr3_exec p F _ _ (set_same _ _ _) (floatOf_isFloat _ h1.1))) fun _ => StepB.nil M K _ (by decide)
+    simp only [env9, hn, Bool.false_eq_true, if_false, if_true]
+    exact hb.congr (ovr_cond p F hC hn)
+  · refine StepS.ite (v := pbool false) (b := false) (by simp [eval, h, bne_pnone, hn]) rfl ?_
+    simp only [env9, hn, if_true, ovrOk, Bool.true_or, Bool.false_eq_true, if_false]
+    exact StepB.nil M _ env (by decide)
+
+
+/-! ### statements 19-21: `default_target_address_type` -/
+
+theorem tatOfInt_enum (i : Int) :
+    tatOfInt i = .sc (.enum "TargetAddressType" (if i = 0 then "Physical" else "Functional")) := by
+  unfold tatOfInt tatPhys tatFunc; split <;> rfl
+
+def c19 (p : ParamArgs) (x : Extra) : Bool :=
+  x.tatAsMember || (!p.defaultTat.isInt || (p.defaultTat.intVal == 0 || p.defaultTat.intVal == 1))
+def c20 (p : ParamArgs) (x : Extra) : Bool := x.tatAsMember || p.defaultTat.isInt
+/-- the object after statement 19: `default_target_address_type` normalised to a member -/
+def env19 (p : ParamArgs) (x : Extra) (env : Env) : Env :=
+  if !x.tatAsMember && p.defaultTat.isInt then env.set tatKey (tatOfInt p.defaultTat.intVal) else env
+
+variable (x : Extra)
+
+theorem s19_step (h : env tatKey = some (tatPres p x)) : StepS M K env (V 19) (c19 p x) (env19 p x env) := by
+  cases hm : x.tatAsMember
+  · simp only [tatPres, hm, Bool.false_eq_true, if_false] at h
+    have := s19_raw p F env _ h
+    simp only [c19, env19, hm, Bool.false_or, Bool.not_false, Bool.true_and]
+    exact StepS.of_exec K rfl rfl (Nat.le_of_ble_eq_true rfl) this
+  · simp only [tatPres, hm, if_true, tatOfInt_enum] at h
+    have := s19_member p F env _ _ h
+    simp only [c19, env19, hm, Bool.true_or, Bool.not_true, Bool.false_and, Bool.false_eq_true, if_false]
+    exact StepS.of_exec K rfl rfl (Nat.le_of_ble_eq_true rfl) (by rw [this]; rfl)
+
+theorem env19_tat (h : env tatKey = some (tatPres p x)) :
+    env19 p x env tatKey = some (if c20 p x then tatOfInt p.defaultTat.intVal else pv p.defaultTat) := by
+  cases hm : x.tatAsMember <;> cases hi : p.defaultTat.isInt <;> simp [env19, c20, hm, hi, h, tatPres, set_same]
+
+theorem s20_step (h : env tatKey = some (tatPres p x)) :
+    StepS M K (env19 p x env) (V 20) (c20 p x) (env19 p x env) := by
+  have h2 := s20_exec p F _ _ (env19_tat p env x h)
+  have e : isTatPV (if c20 p x then tatOfInt p.defaultTat.intVal else pv p.defaultTat) = c20 p x := by
+    cases c20 p x
+    · rfl
+    · simp only [if_true, tatOfInt_enum]; rfl
+  rw [e] at h2
+  exact StepS.of_exec K rfl rfl (Nat.le_of_ble_eq_true rfl) h2
+
+theorem s21_step (h : env tatKey = some (tatPres p x)) (h20 : c20 p x = true)
+    (hP : env19 p x env "isotp.address.TargetAddressType.Physical" = some tatPhys)
+    (hF : env19 p x env "isotp.address.TargetAddressType.Functional" = some tatFunc) :
+    StepS M K (env19 p x env) (V 21) true (env19 p x env) := by
+  have h1 := env19_tat p env x h
+  rw [h20, if_pos rfl] at h1
+  have h2 := s21_exec p F _ _ h1 hP hF
+  have e : (pvEq (tatOfInt p.defaultTat.intVal) tatPhys || pvEq (tatOfInt p.defaultTat.intVal) tatFunc) = true := by
+    unfold tatOfInt; split <;> simp [tatPhys, tatFunc]
+  rw [e] at h2
+  exact StepS.of_exec K rfl rfl (Nat.le_of_ble_eq_true rfl) h2
+
+/-! ### the attributes nobody writes -/
+
+structure Pres (p : ParamArgs) (x : Extra) (env : Env) : Prop where
+  stmin : env "self.stmin" = some (pv p.stmin)
+  blocksize : env "self.blocksize" = some (pv p.blocksize)
+  tFc : env "self.rx_flowcontrol_timeout" = some (pv p.tFc)
+  tCf : env "self.rx_consecutive_frame_timeout" = some (pv p.tCf)
+  pad : env "self.tx_padding" = some (pv p.txPadding)
+  wftmax : env "self.wftmax" = some (pv p.wftmax)
+  txDl : env "self.tx_data_length" = some (pv p.txDl)
+  minLen : env "self.tx_data_min_length" = some (pv p.txMinLen)
+  mfs : env "self.max_frame_size" = some (pv p.maxFrameSize)
+  canFd : env "self.can_fd" = some (pv p.canFd)
+  brs : env "self.bitrate_switch" = some (pv p.brs)
+  bitrate : env "self.rate_limit_max_bitrate" = some (pv p.rlBitrate)
+  window : env "self.rate_limit_window_size" = some (pv p.rlWindow)
+  rlEnable : env "self.rate_limit_enable" = some (pv p.rlEnable)
+  listen : env "self.listen_mode" = some (pv p.listen)
+  blocking : env "self.blocking_send" = some (pv p.blocking)
+  logger : env "self.logger_name" = some (x.logger)
+  wait : env "self.wait_func" = some (x.waitFunc)
+  phys : env "isotp.address.TargetAddressType.Physical" = some (tatPhys)
+  func : env "isotp.address.TargetAddressType.Functional" = some (tatFunc)
+
+theorem pres_init : Pres p x (paramsEnv p x) := by constructor <;> rfl
+
+theorem Pres.set {p : ParamArgs} {x : Extra} {env : Env} (h : Pres p x env) (k : String) (v : PV)
+    (hk : k = ovrKey ∨ k = tatKey ∨ k = "window_bits_finite") : Pres p x (env.set k v) := by
+  cases h
+  rcases hk with rfl | rfl | rfl <;> constructor <;> simp [Env.set, ovrKey, tatKey, *]
+
+theorem Pres.env9 {p : ParamArgs} {x : Extra} {env : Env} (h : Pres p x env) : Pres p x (env9 p env) := by
+  unfold Params.env9; split
+  · exact h
+  · exact h.set _ _ (.inl rfl)
+
+theorem Pres.env19 {p : ParamArgs} {x : Extra} {env : Env} (h : Pres p x env) : Pres p x (env19 p x env) := by
+  unfold Params.env19; split
+  · exact h.set _ _ (.inr (.inl rfl))
+  · exact h
+
+
+/-! ## 6. The whole body -/
+
+theorem num_of_float_or_int (v : PyVal) (h : (v.isFloat || v.isInt) = true) : isNumber v = true := by
+  cases v <;> simp_all [PyVal.isFloat, PyVal.isInt, isNumber]
+
+/-- the conjunction of the 35 checks, in source order (the chain of `and`s `validate` is) -/
+def srcCond (p : ParamArgs) (F : Facts) (x : Extra) : Bool :=
+  p.tFc.isInt && (
+  (decide (0 ≤ p.tFc.intVal) && F.fits p.tFc.intVal) && (
+  p.tCf.isInt && (
+  (decide (0 ≤ p.tCf.intVal) && F.fits p.tCf.intVal) && (
+  (p.txPadding.isNone || intIn p.txPadding 0 0xFF) && (
+  p.stmin.isInt && (
+  (decide (0 ≤ p.stmin.intVal) && decide (p.stmin.intVal ≤ 255)) && (
+  p.blocksize.isInt && (
+  (decide (0 ≤ p.blocksize.intVal) && decide (p.blocksize.intVal ≤ 255)) && (
+  ovrOk p && (
+  p.wftmax.isInt && (
+  decide (0 ≤ p.wftmax.intVal) && (
+  p.txDl.isInt && (
+  decide (p.txDl.intVal ∈ [8, 12, 16, 20, 24, 32, 48, 64]) && (
+  (p.txMinLen.isNone || (minLenOk p.txMinLen && decide (p.txMinLen.intVal ≤ p.txDl.intVal))) && (
+  p.maxFrameSize.isInt && (
+  decide (0 ≤ p.maxFrameSize.intVal) && (
+  p.canFd.isBool && (
+  p.brs.isBool && (
+  c19 p x && (
+  c20 p x && (
+  true && (
+  p.rlBitrate.isInt && (
+  decide (0 < p.rlBitrate.intVal) && (
+  (p.rlWindow.isFloat || p.rlWindow.isInt) && (
+  (!p.rlWindow.leZero) && (
+  true && (
+  finBits p && (
+  p.rlEnable.isBool && (
+  (!(p.prod.ltInt (p.txDl.intVal * 8))) && (
+  p.listen.isBool && (
+  p.blocking.isBool && (
+  isStrPV x.logger && (
+  isCallablePV x.waitFunc && (
+  F.waitExc.isNone && (
+  true)))))))))))))))))))))))))))))))))))
+
+/-- the object (and the one local) a successful `validate()` leaves behind -/
+def finalEnv (p : ParamArgs) (x : Extra) : Env :=
+  (env19 p x (env9 p (paramsEnv p x))).set "window_bits_finite" (pbool (finBits p))
+
+theorem env9_tat : env9 p (paramsEnv p x) tatKey = some (tatPres p x) := by
+  unfold env9; split
+  · rfl
+  · rw [set_other _ _ _ _ (by decide)]; rfl
+
+theorem validate_steps (hC : Coherent p F) :
+    StepB M 51 (paramsEnv p x) Src.TransportLayerLogic_Params_validate (srcCond p F x) (finalEnv p x) := by
+  have H0 : Pres p x (paramsEnv p x) := pres_init p x
+  have H1 : Pres p x (env9 p (paramsEnv p x)) := H0.env9
+  have H2 : Pres p x (env19 p x (env9 p (paramsEnv p x))) := H1.env19
+  have H3 : Pres p x (finalEnv p x) := H2.set _ _ (.inr (.inr rfl))
+  have htat := env9_tat p x
+  rw [body_eq]
+  unfold srcCond finalEnv
+  exact
+    StepB.cons' (notIntG_step M _ _ _ H0.tFc) fun h0 =>
+    StepB.cons' (fitsG_step p F _ _ _ H0.tFc h0) fun h1 =>
+    StepB.cons' (notIntG_step M _ _ _ H0.tCf) fun h2 =>
+    StepB.cons' (fitsG_step p F _ _ _ H0.tCf h2) fun h3 =>
+    StepB.cons' (StepS.of_exec K rfl rfl (Nat.le_of_ble_eq_true rfl) (s4_exec M _ _ H0.pad)) fun h4 =>
+    StepB.cons' (notIntG_step M _ _ _ H0.stmin) fun h5 =>
+    StepB.cons' (rangeG_step M _ _ _ H0.stmin h5) fun h6 =>
+    StepB.cons' (notIntG_step M _ _ _ H0.blocksize) fun h7 =>
+    StepB.cons' (rangeG_step M _ _ _ H0.blocksize h7) fun h8 =>
+    StepB.cons' (s9_step p F _ hC rfl) fun h9 =>
+    StepB.cons' (notIntG_step M _ _ _ H1.wftmax) fun h10 =>
+    StepB.cons' (ltZeroG_step M _ _ _ H1.wftmax h10) fun h11 =>
+    StepB.cons' (notIntG_step M _ _ _ H1.txDl) fun h12 =>
+    StepB.cons' (StepS.of_exec K rfl rfl (Nat.le_of_ble_eq_true rfl) (s13_exec M _ _ H1.txDl h12)) fun h13 =>
+    StepB.cons' (StepS.of_exec K rfl rfl (Nat.le_of_ble_eq_true rfl) (s14_exec M _ _ _ H1.minLen H1.txDl h12)) fun h14 =>
+    StepB.cons' (notIntG_step M _ _ _ H1.mfs) fun h15 =>
+    StepB.cons' (ltZeroG_step M _ _ _ H1.mfs h15) fun h16 =>
+    StepB.cons' (notBoolG_step M _ _ _ H1.canFd) fun h17 =>
+    StepB.cons' (notBoolG_step M _ _ _ H1.brs) fun h18 =>
+    StepB.cons' (s19_step p F _ x htat) fun h19 =>
+    StepB.cons' (s20_step p F _ x htat) fun h20 =>
+    StepB.cons' (s21_step p F _ x htat h20 H2.phys H2.func) fun h21 =>
+    StepB.cons' (notIntG_step M _ _ _ H2.bitrate) fun h22 =>
+    StepB.cons' (StepS.of_exec K rfl rfl (Nat.le_of_ble_eq_true rfl) (s23_exec M _ _ H2.bitrate h22)) fun h23 =>
+    StepB.cons' (StepS.of_exec K rfl rfl (Nat.le_of_ble_eq_true rfl) (s24_exec M _ _ H2.window)) fun h24 =>
+    StepB.cons' (StepS.of_exec K rfl rfl (Nat.le_of_ble_eq_true rfl) (s25_exec M _ _ H2.window (num_of_float_or_int _ h24))) fun h25 =>
+    StepB.cons' (s26_step p F _ hC H2.bitrate H2.window h22 h24) fun h26 =>
+    StepB.cons' (StepS.of_exec K rfl rfl (Nat.le_of_ble_eq_true rfl) (s27_exec M _ _ (set_same _ _ _))) fun h27 =>
+    StepB.cons' (notBoolG_step M _ _ _ H3.rlEnable) fun h28 =>
+    StepB.cons' (StepS.of_exec K rfl rfl (Nat.le_of_ble_eq_true rfl) (s29_exec p F _ hC H3.bitrate H3.window H3.txDl h22 h24 h27 h12)) fun h29 =>
+    StepB.cons' (notBoolG_step M _ _ _ H3.listen) fun h30 =>
+    StepB.cons' (notBoolG_step M _ _ _ H3.blocking) fun h31 =>
+    StepB.cons' (StepS.of_exec K rfl rfl (Nat.le_of_ble_eq_true rfl) (s32_exec p F _ _ H3.logger)) fun h32 =>
+    StepB.cons' (StepS.of_exec K rfl rfl (Nat.le_of_ble_eq_true rfl) (s33_exec p F _ _ H3.wait)) fun h33 =>
+    StepB.cons' (StepS.of_exec K rfl rfl (Nat.le_of_ble_eq_true rfl) (s34_exec p F _)) fun h34 =>
+    StepB.nil M 16 _ (by decide)
+
+
+/-- what the source checks beyond the model: the two `_fits_float` calls and the three checks on `logger_name` / `wait_func` -/
+def extraOk (p : ParamArgs) (F : Facts) (x : Extra) : Bool :=
+  F.fits p.tFc.intVal && F.fits p.tCf.intVal && isStrPV x.logger && isCallablePV x.waitFunc && F.waitExc.isNone
+
+theorem tat_cond (hx : x.tatAsMember = true → p.defaultTat = .int 0 ∨ p.defaultTat = .int 1) :
+    (c19 p x && (c20 p x && true)) =
+      (p.defaultTat.isInt && (decide (p.defaultTat.intVal = 0) || decide (p.defaultTat.intVal = 1))) := by
+  cases hm : x.tatAsMember
+  · cases hi : p.defaultTat.isInt
+    · simp [c19, c20, hm, hi]
+    · by_cases h0 : p.defaultTat.intVal = 0 <;> by_cases h1 : p.defaultTat.intVal = 1 <;> simp [c19, c20, hm, hi, h0, h1]
+  · rcases hx hm with h | h <;> simp [c19, c20, hm, h, PyVal.isInt, PyVal.intVal]
+
+theorem not_nan_of_finite (v : PyVal) (h : v.isFinite = true) : (v != .nan) = true := by
+  cases v <;> simp_all [PyVal.isFinite]
+
+/-- **the 35 checks of the source = the model's `validateParams`, plus the checks the model has no field for** -/
+theorem srcCond_eq (hx : x.tatAsMember = true → p.defaultTat = .int 0 ∨ p.defaultTat = .int 1) :
+    srcCond p F x = (validateParams p && extraOk p F x) := by
+  have ht := tat_cond p x hx
+  have hn := not_nan_of_finite p.rlWindow
+  rw [Bool.eq_iff_iff]
+  simp only [srcCond, validateParams, extraOk, intGe, intIn, txDlOk, ovrOk, finBits, Bool.and_eq_true, Bool.and_true, Bool.true_and] at ht ⊢
+  grind
+
+
+/-! ## 7. `Params.validate` -/
+
+theorem run2_of_stepB_ok {M' : Meths} {k : Nat} {e e' : Env} {b : PBlock} {c : Bool} (h : StepB M' k e b c e') (hc : c = true)
+    (n : Nat) (hn : k ≤ n) : run2 n M' e b = .ok (.ret pnone e') := by
+  unfold run2; rw [h.1 hc n hn]
+theorem run2_of_stepB_err {M' : Meths} {k : Nat} {e e' : Env} {b : PBlock} {c : Bool} (h : StepB M' k e b c e') (hc : c = false)
+    (n : Nat) (hn : k ≤ n) : ∃ e1, run2 n M' e b = .ok (.raised "ValueError" e1) := by
+  obtain ⟨e1, h1⟩ := h.2 hc n hn
+  exact ⟨e1, by unfold run2; rw [h1]⟩
+
+/-- **`Params.validate()` against `validateParams`, for every `p`.**
+
+    Running the dumped body on the object presenting `p` (`paramsEnv p x`), with the callees of `paramsMeths p F`, for every fuel `n ≥ 51`:
+    * returns `None`, leaving the object `finalEnv p x`, when `validateParams p` holds AND the checks the model has no term for pass
+      (`extraOk`: `_fits_float` of the two timeouts, `logger_name` a `str`, `wait_func` callable and not raising);
+    * raises `ValueError` otherwise.
+    Hypotheses: `Coherent p F` (the model's float facts `prod`, `ovrScaledFinite` are the ones Python computes, see `Coherent`), and,
+    when the attribute `default_target_address_type` holds a `TargetAddressType` member rather than a raw value, that `p.defaultTat` is its
+    integer value. -/
+theorem params_validate_agrees (hC : Coherent p F)
+    (hx : x.tatAsMember = true → p.defaultTat = .int 0 ∨ p.defaultTat = .int 1) (n : Nat) (hn : 51 ≤ n) :
+    ((validateParams p && extraOk p F x) = true →
+      run2 n M (paramsEnv p x) Src.TransportLayerLogic_Params_validate = .ok (.ret pnone (finalEnv p x))) ∧
+    ((validateParams p && extraOk p F x) = false →
+      ∃ e, run2 n M (paramsEnv p x) Src.TransportLayerLogic_Params_validate = .ok (.raised "ValueError" e)) := by
+  have h := validate_steps p F x hC
+  rw [srcCond_eq p F x hx] at h
+  exact ⟨fun hc => run2_of_stepB_ok h hc n hn, fun hc => run2_of_stepB_err h hc n hn⟩
+
+/-- the form asked for: when the parts outside the model are well behaved (`extraOk`), `validate()` raises `ValueError` iff
+    `validateParams p = false`, and returns `None` otherwise -/
+theorem params_validate_agrees_iff (hC : Coherent p F)
+    (hx : x.tatAsMember = true → p.defaultTat = .int 0 ∨ p.defaultTat = .int 1) (hE : extraOk p F x = true) (n : Nat) (hn : 51 ≤ n) :
+    (validateParams p = true ↔
+      run2 n M (paramsEnv p x) Src.TransportLayerLogic_Params_validate = .ok (.ret pnone (finalEnv p x))) ∧
+    (validateParams p = false ↔
+      ∃ e, run2 n M (paramsEnv p x) Src.TransportLayerLogic_Params_validate = .ok (.raised "ValueError" e)) := by
+  have h := params_validate_agrees p F x hC hx n hn
+  rw [hE, Bool.and_true] at h
+  cases hv : validateParams p
+  · obtain ⟨e, he⟩ := h.2 hv
+    refine ⟨⟨fun h0 => (by cases h0), fun h1 => ?_⟩, ⟨fun _ => ⟨e, he⟩, fun _ => rfl⟩⟩
+    rw [he] at h1; cases h1
+  · have h1 := h.1 hv
+    refine ⟨⟨fun _ => h1, fun _ => rfl⟩, ⟨fun h0 => (by cases h0), fun h2 => ?_⟩⟩
+    obtain ⟨e, he⟩ := h2
+    rw [h1] at he; cases he
+
+/-- a `wait_func` that raises: `ValueError`, whatever the parameters -/
+theorem params_validate_wait_raises (hC : Coherent p F)
+    (hx : x.tatAsMember = true → p.defaultTat = .int 0 ∨ p.defaultTat = .int 1) (ex : PyExc) (hw : F.waitExc = some ex)
+    (n : Nat) (hn : 51 ≤ n) :
+    ∃ e, run2 n M (paramsEnv p x) Src.TransportLayerLogic_Params_validate = .ok (.raised "ValueError" e) :=
+  (params_validate_agrees p F x hC hx n hn).2 (by simp [extraOk, hw])
+
+/-- a timeout that does not fit a float (`_fits_float` false): `ValueError`, whatever the model says -/
+theorem params_validate_not_fits (hC : Coherent p F)
+    (hx : x.tatAsMember = true → p.defaultTat = .int 0 ∨ p.defaultTat = .int 1)
+    (hf : F.fits p.tFc.intVal = false ∨ F.fits p.tCf.intVal = false) (n : Nat) (hn : 51 ≤ n) :
+    ∃ e, run2 n M (paramsEnv p x) Src.TransportLayerLogic_Params_validate = .ok (.raised "ValueError" e) :=
+  (params_validate_agrees p F x hC hx n hn).2 (by rcases hf with hf | hf <;> simp [extraOk, hf])
+
+/-! what a successful `validate()` leaves behind: every attribute unchanged, except the two normalisations -/
+
+theorem finalEnv_unchanged : Pres p x (finalEnv p x) :=
+  (((pres_init p x).env9).env19).set _ _ (.inr (.inr rfl))
+
+theorem finalEnv_override :
+    finalEnv p x ovrKey = some (pv (if p.overrideStmin.isNone then .none else floatOf p.overrideStmin)) := by
+  unfold finalEnv env19 env9
+  cases hn : p.overrideStmin.isNone <;> cases hm : (!x.tatAsMember && p.defaultTat.isInt) <;>
+    simp [Env.set, ovrKey, tatKey, paramsEnv]
+  all_goals (cases hv : p.overrideStmin <;> simp_all [PyVal.isNone])
+
+theorem finalEnv_tat (hv : validateParams p = true) :
+    finalEnv p x tatKey = some (tatOfInt p.defaultTat.intVal) := by
+  have hi : p.defaultTat.isInt = true := by
+    simp only [validateParams, Bool.and_eq_true] at hv
+    exact hv.1.1.1.1.1.1.1.2.1
+  unfold finalEnv
+  rw [set_other _ _ _ _ (by decide), env19_tat p _ x (env9_tat p x)]
+  simp [c20, hi]
+
+end withMeths
 end Isotp.PyAgree.Params
